@@ -53,6 +53,16 @@ def generate(rng, tier):
             for nm in ("pkg-1.0", "pkg-1", "pkg-1.5", "pkg-2", "pkg-" + long_lo, "pkg-1" + ".0" * k + ".8"):
                 cases.append(Case("dewey.match", [enc(p), enc(nm)], meta={"p": p, "n": nm}, tag="long"))
                 cases.append(Case("pat.match", [enc(p), enc(nm)], meta={"p": p, "n": nm}, tag="long"))
+    # bases whose FIRST or SECOND character is not ASCII (the first-two-characters fast reject of Pattern looks exactly
+    # there; Dewey has no such filter): matching and non-matching names through both matchers, incl. names that start with
+    # the Latin-1 reading of the base's UTF-8 lead byte
+    for b in ("été", "éa", "aé", "ü", "日本語", "a日", "a😀", "😀", "Ãx", "é-x", "-é"):
+        for p in (b + ">=1.0<2", b + ">=1", b + "<2", b + ">1<=1.5"):
+            cases.append(Case("dewey.new", [enc(p)], tag="nonascii"))
+            cases.append(Case("pat.new", [enc(p)], tag="nonascii"))
+            for nm in (b + "-1.5", b + "-1.0", b + "-2", b + "-0.9", b[:-1] + "-1.5", b + "x-1.5", "Ã" + b[1:] + "-1.5", b.encode("utf-8").decode("latin-1") + "-1.5", b):
+                cases.append(Case("dewey.match", [enc(p), enc(nm)], meta={"p": p, "n": nm}, tag="nonascii"))
+                cases.append(Case("pat.match", [enc(p), enc(nm)], meta={"p": p, "n": nm}, tag="nonascii"))
     # line terminators and other control characters are ordinary characters of names and bases
     for p, nm in (("foo>=1<3", "foo-2\nbar-x"), ("foo\nbar>=1", "foo\nbar-2"), ("foo>=1", "foo-2\n"), ("foo>=1", "foo-2\r\n"), ("foo>=1", "foo\n-2"),
                   ("foo>=1", "foo-2\x00-x"), ("foo\x00>=1", "foo\x00-2"), ("foo>=1", "foo-2\u2028x-1"), ("foo>=1", "foo-\n2"), ("a\rb<2", "a\rb-1")):
